@@ -76,7 +76,7 @@ impl TemplateParser for SimpleTemplate {
     }
 }
 
-pub struct ExpressionTemplate();
+pub struct ExpressionTemplate(Option<crate::ast::Position>);
 
 impl Default for ExpressionTemplate {
     fn default() -> Self {
@@ -86,10 +86,23 @@ impl Default for ExpressionTemplate {
 
 impl ExpressionTemplate {
     pub fn new() -> Self {
-        ExpressionTemplate()
+        ExpressionTemplate(None)
     }
 
-    fn consume_expr(&self, iter: &mut Chars) -> Result<Expression, Box<dyn Error>> {
+    /// The position of the template string in its source file. The expressions
+    /// inside `@{...}` are then positioned relative to it, so that an error in
+    /// one of them points into the format string and not at line 1 of the file.
+    pub fn at(mut self, pos: &crate::ast::Position) -> Self {
+        self.0 = Some(pos.clone());
+        self
+    }
+
+    fn consume_expr(
+        &self,
+        iter: &mut Chars,
+        line: usize,
+        col: usize,
+    ) -> Result<Expression, Box<dyn Error>> {
         let mut result = String::new();
         let mut brace_count = 0;
         for c in iter.by_ref() {
@@ -109,7 +122,11 @@ impl ExpressionTemplate {
             }
             result.push(c);
         }
-        let str_iter = iter::OffsetStrIter::new(&result);
+        // Positions inside the expression are relative to where it stands in the file.
+        let mut str_iter = iter::OffsetStrIter::new_with_offsets(&result, line - 1, col - 1);
+        if let Some(file) = self.0.as_ref().and_then(|p| p.file.as_ref()) {
+            str_iter = str_iter.with_src_file(file.clone());
+        }
         let toks = match tokenizer::tokenize(str_iter, None) {
             Ok(toks) => toks,
             Err(e) => {
@@ -142,17 +159,47 @@ impl TemplateParser for ExpressionTemplate {
         let mut should_escape = false;
         let mut iter = input.chars();
         let mut buf: Vec<char> = Vec::new();
+        // Where we are in the source file: the character after the opening quote.
+        let (mut line, mut col) = match &self.0 {
+            Some(pos) => (pos.line, pos.column + 1),
+            None => (1, 1),
+        };
         while let Some(c) = iter.next() {
             if c == '@' && !should_escape {
                 parts.push(TemplatePart::Str(buf));
                 buf = Vec::new();
                 // consume our expression here
-                parts.push(TemplatePart::Expression(self.consume_expr(&mut iter)?));
+                // (it starts after the `@{`)
+                let before = iter.as_str().len();
+                parts.push(TemplatePart::Expression(self.consume_expr(
+                    &mut iter,
+                    line,
+                    col + 2,
+                )?));
+                let consumed = &input[input.len() - before..input.len() - iter.as_str().len()];
+                for cc in consumed.chars() {
+                    if cc == '\n' {
+                        line += 1;
+                        col = 0;
+                    } else {
+                        col += 1;
+                    }
+                }
+                col += 1;
+                should_escape = false;
+                continue;
             } else if c == '\\' && !should_escape {
                 should_escape = true;
+                col += 1;
                 continue;
             } else {
                 buf.push(c);
+            }
+            if c == '\n' {
+                line += 1;
+                col = 1;
+            } else {
+                col += 1;
             }
             should_escape = false;
         }
